@@ -24,6 +24,10 @@ pub struct Probes {
     pub blocks: bool,
     /// C15: exhaust memory on a scratch copy; exactly the online free frames are allocatable
     pub c15_fill: bool,
+    /// C18: byte-exact bounds monitor on every hooked atomic access
+    pub bounds: bool,
+    /// place the buffers directly after the leading guard page instead of before the trailing one
+    pub flush_start: bool,
 }
 
 #[derive(Clone)]
@@ -62,6 +66,7 @@ pub struct SeqStats {
     pub per_config: Vec<Value>,
     pub crash_points: u64,
     pub crash_distinct: u64,
+    pub hooked_steps: u64,
 }
 impl SeqStats {
     pub fn merge(&mut self, o: SeqStats) {
@@ -72,6 +77,7 @@ impl SeqStats {
         self.panics += o.panics;
         self.crash_points += o.crash_points;
         self.crash_distinct += o.crash_distinct;
+        self.hooked_steps += o.hooked_steps;
         for (k, v) in o.probe_evals {
             *self.probe_evals.entry(k).or_default() += v;
         }
@@ -127,7 +133,10 @@ pub fn explore(cfg: &Config, p: &SeqParams, col: &mut Collector) -> SeqStats {
         configs: 1,
         ..Default::default()
     };
-    let sut = match Sut::try_new(cfg, cfg.init.init(), true) {
+    if p.probes.bounds {
+        crate::guard::set_inflight(&seq_replay(cfg, &[], None, json!({"flush_start": p.probes.flush_start})));
+    }
+    let sut = match Sut::try_new(cfg, cfg.init.init(), !p.probes.flush_start) {
         Ok(s) => s,
         Err(r) => {
             if let Res::Panic(msg) = &r {
@@ -192,11 +201,24 @@ pub fn explore(cfg: &Config, p: &SeqParams, col: &mut Collector) -> SeqStats {
                 }
                 sut.bufs.restore(&st.bytes);
                 let before = matches!(op, Op::Change { .. }).then(|| oracle::tree_view(&sut));
-                if rec.is_some() {
-                    crate::crash::begin_log(&sut);
+                if rec.is_some() || p.probes.bounds {
+                    crate::crash::begin(&sut, rec.is_some(), p.probes.bounds);
                 }
                 let res = sut.apply(op);
-                let log = rec.is_some().then(crate::crash::end_log);
+                let log = if rec.is_some() || p.probes.bounds {
+                    let (log, oob, steps) = crate::crash::end();
+                    stats.hooked_steps += steps;
+                    if let Some(ev) = oob {
+                        viol.push(Violation::new(
+                            "C18",
+                            "atomic access outside the metadata buffers",
+                            format!("{}: {:?} at {:#x} size {}", op.short(), ev.kind, ev.addr, ev.size),
+                        ));
+                    }
+                    rec.is_some().then_some(log)
+                } else {
+                    None
+                };
                 stats.transitions += 1;
                 *stats
                     .outcomes
